@@ -10,6 +10,9 @@ package main
 // goroutine. The read must complete (expected within 1 s; a read that is merely slow on a loaded machine is given a
 // grace period, a read that waits for the writer never completes while the writer stays parked): otherwise O=. Its
 // result must also be what it was before the writer began (model-free isolation oracle). Then the writer is released.
+// Cases `entry=W:<write entry point>;state=R:<reader state>` are the converse: a reader is parked (inside a handler, in an
+// open read-only transaction, half-way through an iteration, holding a Lookup context, inside View, using a snapshot)
+// and a write entry point must complete - writers wait only for other writers.
 // opts: 0 default · 1 WithIgnoreTrailingSlash · 2 WithRedirectTrailingSlash · 3 WithNoMethod+WithAutoOptions.
 
 import (
@@ -201,6 +204,9 @@ func runParked(fields []string) string {
 		return "I=setup-failed\tO=" + err.Error()
 	}
 	entryPoint, state := cfg["entry"], cfg["state"]
+	if strings.HasPrefix(entryPoint, "W:") {
+		return runParkedReader(f, entryPoint, state, opts)
+	}
 	before := doRead(f, entryPoint)
 
 	ready := make(chan struct{})
@@ -301,12 +307,178 @@ func runParked(fields []string) string {
 	return line
 }
 
+// ---------------------------------------------------------------- writers wait only for other writers
+
+var parkedWriteEntries = []string{"W:Handle", "W:Update", "W:Delete", "W:Updates", "W:Txn-commit", "W:Txn-abort", "W:Truncate"}
+var parkedReaderStates = []string{"R:handler", "R:txn", "R:iter", "R:lookup", "R:view", "R:snapshot"}
+
+func doWrite(f *fox.Router, entryPoint string) string {
+	switch entryPoint {
+	case "W:Handle":
+		_, err := f.Handle("GET", "/w/new", hidHandler(200), fox.WithAnnotation(hidKey{}, 200))
+		return classifyErr(err)
+	case "W:Update":
+		_, err := f.Update("GET", "/a", hidHandler(201), fox.WithAnnotation(hidKey{}, 201))
+		return classifyErr(err)
+	case "W:Delete":
+		_, err := f.Delete("GET", "/a/b")
+		return classifyErr(err)
+	case "W:Updates":
+		return classifyErr(f.Updates(func(txn *fox.Txn) error { parkedWrites(txn); return nil }))
+	case "W:Txn-commit":
+		txn := f.Txn(true)
+		parkedWrites(txn)
+		txn.Commit()
+		return "ok"
+	case "W:Txn-abort":
+		txn := f.Txn(true)
+		parkedWrites(txn)
+		txn.Abort()
+		return "ok"
+	case "W:Truncate":
+		return classifyErr(f.Updates(func(txn *fox.Txn) error { return txn.Truncate("GET") }))
+	}
+	return "unknown-entry"
+}
+
+// runParkedReader: a READER is parked (a request inside its handler, an open read-only transaction, an iteration stopped
+// half-way, a Lookup whose context is not closed yet, a View function, a snapshot in use) and stays there; the write
+// entry point is then called from another goroutine and must complete: writers wait only for other writers.
+func runParkedReader(f *fox.Router, entryPoint, state string, opts int) string {
+	ready := make(chan struct{})
+	release := make(chan struct{})
+	readerDone := make(chan struct{})
+	if _, err := f.Handle("GET", "/park", func(c fox.Context) {
+		close(ready)
+		<-release
+		c.Writer().WriteHeader(204)
+	}); err != nil {
+		return "I=setup-failed\tO=" + err.Error()
+	}
+	go func() {
+		defer close(readerDone)
+		defer func() { _ = recover() }()
+		switch state {
+		case "R:handler":
+			f.ServeHTTP(newRecWriter(), newReq("GET", "", "/park"))
+		case "R:txn":
+			txn := f.Txn(false)
+			_ = txn.Len()
+			close(ready)
+			<-release
+			_ = txn.Has("GET", "/a")
+			txn.Abort()
+		case "R:iter":
+			first := true
+			for range f.Iter().All() {
+				if first {
+					first = false
+					close(ready)
+					<-release
+				}
+			}
+		case "R:lookup":
+			_, cc, _ := f.Lookup(foxWriter{newRecWriter()}, newReq("GET", "", "/a/v/c"))
+			close(ready)
+			<-release
+			if cc != nil {
+				cc.Close()
+			}
+		case "R:view":
+			_ = f.View(func(txn *fox.Txn) error {
+				_ = txn.Len()
+				close(ready)
+				<-release
+				return nil
+			})
+		case "R:snapshot":
+			txn := f.Txn(false)
+			sn := txn.Snapshot()
+			txn.Abort()
+			close(ready)
+			<-release
+			_ = sn.Len()
+		default:
+			close(ready)
+			<-release
+		}
+	}()
+	var oracles []string
+	select {
+	case <-ready:
+	case <-time.After(20 * time.Second):
+		close(release)
+		return "I=reader-not-parked\tO=the reader did not reach state " + state
+	}
+	res := make(chan string, 1)
+	go func() {
+		defer func() {
+			if p := recover(); p != nil {
+				res <- "panic:" + fmt.Sprint(p)
+			}
+		}()
+		res <- doWrite(f, entryPoint)
+	}()
+	first, grace := readTimeouts()
+	out := "done"
+	check := func(got string) {
+		if got != "ok" {
+			oracles = append(oracles, fmt.Sprintf("%s returned %s while a reader is parked in state %s", entryPoint, got, state))
+		}
+	}
+	select {
+	case got := <-res:
+		check(got)
+	case <-time.After(first):
+		select {
+		case got := <-res:
+			check(got)
+		case <-time.After(grace):
+			out = "blocked"
+			parkedBlocked.Add(1)
+			oracles = append(oracles, fmt.Sprintf("%s did not complete while a reader is parked in state %s (options %d): the writer waits for a reader", entryPoint, state, opts))
+		}
+	}
+	if out == "done" && fox.VerifWriterLocked(f) {
+		oracles = append(oracles, "the writer lock is still held after "+entryPoint+" returned")
+	}
+	close(release)
+	select {
+	case <-readerDone:
+	case <-time.After(20 * time.Second):
+		oracles = append(oracles, "the parked reader did not finish after its release")
+	}
+	if out == "blocked" {
+		select {
+		case <-res:
+		case <-time.After(5 * time.Second):
+		}
+	}
+	line := "I=" + out
+	if len(oracles) > 0 {
+		line += "\tO=" + strings.Join(oracles, " ;; ")
+	}
+	return line
+}
+
 func genParked(r *Rng, tier string, n int, emit func(string)) {
 	// the full matrix (deterministic); n is only a cap
 	k := 0
 	for _, e := range parkedEntries {
 		for _, s := range parkedStates {
 			for o := 0; o < 4; o++ {
+				if k >= n {
+					return
+				}
+				k++
+				emit(fmt.Sprintf("parked\tentry=%s;state=%s;opts=%d", e, s, o))
+			}
+		}
+	}
+	// writers against parked readers
+	for _, e := range parkedWriteEntries {
+		for _, s := range parkedReaderStates {
+			for _, o := range []int{0, 3} {
 				if k >= n {
 					return
 				}
